@@ -189,7 +189,7 @@ Section LexFacts.
     lexg (LName acc) (c :: r) =
     if isw c then lexg (LName (c :: acc)) r
     else cons_toks [TName (rev acc)] (lexg LNone (c :: r)).
-  Proof. intros. cbn [lex_go flush]. unfold is_word. destruct (classify c); reflexivity. Qed.
+  Proof. intros. cbn [lex_go flush]. unfold is_word, rev'. rewrite <- rev_alt. destruct (classify c); reflexivity. Qed.
 
   Lemma lex_int_cons : forall v c r,
     lexg (LInt v) (c :: r) =
@@ -231,7 +231,7 @@ Section LexFacts.
   Proof.
     induction w as [|c w IH]; intros acc r Hw Hr.
     - rewrite app_nil_r. simpl app. destruct r as [|c r].
-      + reflexivity.
+      + cbn [lex_go flush cons_toks app]. unfold rev'. now rewrite <- rev_alt.
       + simpl in Hr. now rewrite lex_name_cons, Hr.
     - simpl in Hw. apply andb_true_iff in Hw as [Hc Hw].
       simpl app. rewrite lex_name_cons, Hc, (IH (c :: acc) r Hw Hr).
@@ -365,7 +365,7 @@ Section LexFacts.
     induction e as [|c r IH]; intros st ts H S.
     - simpl in H. injection H as <-. destruct st as [|acc|v]; simpl.
       + apply Tk_end. apply blanks_nil.
-      + exists [], [], []. rewrite (app_nil_r (rev acc)). repeat split. apply Tk_end. apply blanks_nil.
+      + exists [], [], []. rewrite (app_nil_r (rev acc)). unfold rev'. rewrite <- rev_alt. repeat split. apply Tk_end. apply blanks_nil.
       + simpl in S. discriminate.
     - assert (HN : forall ts, lexg LNone (c :: r) = Ok ts -> forallb sup ts = true -> Toks (c :: r) ts).
       { clear H S ts. intros ts H S. rewrite lex_none_cons in H.
